@@ -2,6 +2,7 @@
   C10 — -optimize-parser output is observationally equivalent to the standard parser.
 -/
 import PigeonVerif.Proofs.OptEquiv
+import PigeonVerif.Proofs.OptEquivNoState
 
 namespace PV
 namespace RT
@@ -26,10 +27,91 @@ theorem C10_memoize_ignored_when_optimized (E : Env) (ho : E.flags.optimize = tr
     (rec : Expr → PState → Outcome) (e : Expr) (s : PState) : parseExprWrap E rec e s = rec e s := by
   simp [parseExprWrap, ho]
 
-/-- Partial: without state-change blocks the optimized parser has no state store at all, so the
-    equivalence additionally needs "code blocks never mention the store" (they cannot: it would not
-    compile). That case is decided by the variant-pair correspondence stream, not by this theorem. -/
-theorem C10_equiv_partial : True := trivial
+def Final.mapS (f : PState → PState) : Final → Final
+  | .oof => .oof
+  | .ret v errs s => .ret v errs (f s)
+  | .panic p s => .panic p (f s)
+
+theorem finish_er (E : Env) (o : Outcome) :
+    (finish (E1 E) o).mapS er = finish (E2 E) (o.mapS er) := by
+  have hrec : (E2 E).opts.recover = (E1 E).opts.recover := rfl
+  cases o with
+  | oof => rfl
+  | panic p s =>
+    simp only [finish, Outcome.mapS, hrec]
+    split
+    · simp only [Final.mapS, ← er_addErr]; rfl
+    · rfl
+  | done v ok s =>
+    cases ok with
+    | true => rfl
+    | false =>
+      have hL : finish (E1 E) (.done v false s) =
+          (if s.errs.isEmpty then
+            .ret .nil (dedupe (addErrAt (E1 E) s (noMatchMessage s.maxFailExpected.reverse).1 s.maxFailPos).errs)
+              (addErrAt (E1 E) s (noMatchMessage s.maxFailExpected.reverse).1 s.maxFailPos)
+           else .ret .nil (dedupe s.errs) s) := rfl
+      have hR : finish (E2 E) ((Outcome.done v false s).mapS er) =
+          (if s.errs.isEmpty then
+            .ret .nil (dedupe (addErrAt (E2 E) (er s) (noMatchMessage s.maxFailExpected.reverse).1 s.maxFailPos).errs)
+              (addErrAt (E2 E) (er s) (noMatchMessage s.maxFailExpected.reverse).1 s.maxFailPos)
+           else .ret .nil (dedupe s.errs) (er s)) := rfl
+      rw [hL, hR]
+      split
+      · simp only [Final.mapS]
+        rw [← er_addErrAt (E1 E) (E2 E) rfl]
+        rfl
+      · rfl
+
+/-- **C10, grammars without state-change blocks.** Here `-optimize-parser` removes the state store
+    altogether. For every such grammar (no `#{}` block in any rule; left-recursive ones included), every
+    code environment whose blocks neither read nor write the store (in the optimized parser they cannot:
+    `c.state` does not exist), every input, option set with `Memoize` off and fuel: the run of the
+    optimized parser is the run of the standard parser with the store erased — same value, same error
+    list, same global store, same sequence of code-block invocations with the same positions, texts
+    and arguments. Together with `C10_equiv` this covers both template families. -/
+theorem C10_equiv_no_state (E : Env) (hg : E.flags.globalState = false) (hmz : E.opts.memoize = false)
+    (hb : StateBlind E) (hG : ∀ n r, E.findRule n = some r → r.expr.noState = true) (fuel : Nat) :
+    (parse (withOptimize E false) fuel).mapS er = parse (withOptimize E true) fuel := by
+  have hinit : er (initState (E1 E)) = initState (E2 E) := by
+    simp only [initState, useState1, useState2 hg]; rfl
+  have hstart : er (startState (E1 E)) = startState (E2 E) := by
+    unfold startState
+    simp only []
+    rw [← hinit, ← er_read]
+    rfl
+  show (parse (E1 E) fuel).mapS er = parse (E2 E) fuel
+  unfold parse
+  simp only []
+  have hrules : (E2 E).rules = (E1 E).rules := rfl
+  rw [hrules]
+  cases hr : (E1 E).rules with
+  | nil =>
+    simp only [Final.mapS]
+    rw [← hinit, ← er_addErr]; rfl
+  | cons first rest =>
+    simp only []
+    have hent : entryName (E2 E) first = entryName (E1 E) first := rfl
+    have hfind : ∀ n, (E2 E).findRule n = (E1 E).findRule n := fun _ => rfl
+    rw [hent, hfind]
+    cases hf : (E1 E).findRule (entryName (E1 E) first) with
+    | none =>
+      simp only [Final.mapS]
+      rw [← hinit, ← er_addErr]; rfl
+    | some r =>
+      simp only []
+      rw [finish_er, ← hstart]
+      congr 1
+      have hi : Inv (startState (E1 E)) :=
+        ⟨by intro fr hfr; simp [startState, initState] at hfr,
+         fun e he => by simp [startState, initState] at he⟩
+      exact ruleWrap_er hg hmz (parseExpr_er E hg hmz hb hG fuel) (parseExpr_frame (E1 E) fuel) fuel r _
+        (hG _ r hf) hi
+
+/-- the hypotheses of `C10_equiv_no_state` are satisfiable: a code environment whose blocks ignore the store -/
+example (E : Env) (h : ∀ blk ctx, E.code.run blk ctx =
+    { ret := .nil, retB := true, state := ctx.state, global := ctx.global }) : StateBlind E :=
+  ⟨fun blk ctx st => by simp [h], fun blk ctx => by simp [h]⟩
 
 end RT
 end PV
